@@ -133,6 +133,19 @@ Theorem C16_panic_before_fix :
     = OPage [] (Some {| has_prev := false; has_next := false; start_c := None; end_c := None |}).
 Proof. exact panic_before_fix. Qed.
 
+(** ** The contract cannot be weakened to time order alone
+
+    The Go doc of EdgeGetter does not say how "the start / end of the range" orders edges with
+    equal timestamps.  A getter that honours (min, max, limit) with respect to time only, with its
+    own tie-break, makes the connection return a page different from the reference — so the id
+    tie-break in [honours] is a real requirement on applications (a documentation gap, not a
+    defect of the code). *)
+Theorem C16_tiebreak_by_id_needed :
+  exists E g a es info,
+    NoDup E /\ representable E /\ args_ok a = true /\ honours_time_only g E /\
+    fst (conn current g all_sync true a) = OPage es info /\ es <> TimeRef E a.
+Proof. exact tiebreak_by_id_needed. Qed.
+
 Print Assumptions C16_cursor_order_strict_total.
 Print Assumptions C16_reference_characterised.
 Print Assumptions C16_sorted_list_unique.
@@ -147,3 +160,4 @@ Print Assumptions C16_time_walk_bwd_exact.
 Print Assumptions C16_filters_refuted_before_fix.
 Print Assumptions C16_result_refuted_before_wrap_fix.
 Print Assumptions C16_panic_before_fix.
+Print Assumptions C16_tiebreak_by_id_needed.
